@@ -63,6 +63,11 @@ def exchange_open(c):
        the code reads the timestamp's own wall clock, so a stamp expressed in another zone is outside this contract)"""
     ex = SimulatedExchange(c.time('start'))
     t = c.time('t', utc=True)
+    if c.mode == 'conc':
+        # an earlier query leaves nothing behind: in particular not one exactly 28 / 31 days before (same day number, same weekday)
+        import pandas as pd
+        days = c.rng.choice([31, 28, 31, 7]) if getattr(c, 'rng', None) is not None else 31
+        ex.is_open_at_datetime(t - pd.Timedelta(days=days))
     r = ex.is_open_at_datetime(t)
     wd, tod = wd_tod(c, t)
     c.ob('open-iff-weekday-and-1430-to-2100', IFF(r, AND(LE(wd, 4), GE(tod, 52200), LT(tod, 75600))))
@@ -88,7 +93,7 @@ def dynamic_universe(c):
     t = c.time('t')
     if c.mode == 'conc' and getattr(c, 'rng', None) is not None and getattr(c, 'model', None) is None:
         # concrete runs: put t exactly ON an entry instant often (the inclusive boundary), and the earlier query after it
-        entries = [v for v in dates.m.values() if v is not None]
+        entries = [v for v in dates.m.values() if v is not None and v is not __import__('pandas').NaT]
         if entries and c.rng.random() < 0.5:
             t = c.rng.choice(entries).tz_convert('UTC')
         if entries and c.rng.random() < 0.5:
